@@ -15,7 +15,7 @@ REX_EDGE = ["/a/", "/ab+/", "/[a-z]+/", "/^$/", "/(a|b)*c/", "/a{2,3}/", "/./", 
 SCALARS = ["a", "b", "c", "d", "s", "t", "n", "i", "j"]
 MAPS = ["m", "m2"]
 ARRS = ["r"]
-GLOBALS_RW = ["NF", "NR", "FNR", "FS", "OFS", "ORS", "RS", "SUBSEP", "CONVFMT", "OFMT", "IGNORECASE", "RSTART", "RLENGTH",
+GLOBALS_RW = ["ARGC", "ARGV[1]", "ARGV[2]", "NF", "NR", "FNR", "FS", "OFS", "ORS", "RS", "SUBSEP", "CONVFMT", "OFMT", "IGNORECASE", "RSTART", "RLENGTH",
               "NUMSTRDETECT", "STRIPRECSPC", "STRIPSTRSPC", "FILENAME"]
 BINOPS = ["+", "-", "*", "/", "\\", "%", "**", "^", "<", "<=", ">", ">=", "==", "!=", "===", "!==", "~", "!~", "&&", "||", " ", "%%",
           "<<", ">>", "&", "^^"]
@@ -74,7 +74,7 @@ def _init_builtins():
 
 BUILTINS = _init_builtins()
 CONSTS = ["str::TRIM_PAC_SPACES", "hawk::GC_NUM_GENS", "hawk::VAL_MAP", "hawk::VAL_STR", "hawk::VAL_NIL"]
-CMDS = ['"cat"', '"echo a b c"', '"true"', '"false"', '"sort"', '"printf \'x y\\\\nz\\\\n\'"', '"nosuchcmd"']
+CMDS = ['"cat"', '"echo a b c"', '"echo -1"', '"true"', '"false"', '"sort"', '"printf \'x y\\\\nz\\\\n\'"', '"nosuchcmd"']
 RWCMDS = ['"echo a b c"', '"true"', '"false"', '"nosuchcmd"']     # reading from `cat`/`sort` over a two-way pipe blocks by design
 FILES = ['"f1"', '"f2"', '"/dev/null"', '"nofile"', '"/nonexistent/x"', '""', '"in"']
 
@@ -83,7 +83,8 @@ class Gen:
     def __init__(self, rng):
         self.r = rng
         self.feat = set()
-        self.funcs = []          # (name, nparams)
+        self.funcs = []          # (name, named params, variadic)
+        self.in_variadic = False
         self.in_func = None
         self.loop_depth = 0
         self.uid = 0
@@ -162,6 +163,8 @@ class Gen:
         r = self.r
         if d <= 0 or r.random() < 0.22:
             k = r.random()
+            if self.in_variadic and k < 0.15:
+                self.f("v:argv"); return self.pick(["@argc", "@argv[0]", "@argv[1]", "@argv[7]", "@argv[(@argc-1)]", "(2 in @argv)"])
             if k < 0.55:
                 return self.literal()
             if k < 0.93:
@@ -193,8 +196,16 @@ class Gen:
         if k < 0.86:
             return self.call(d)
         if k < 0.91 and self.funcs:
-            name, np = self.pick(self.funcs); self.f("call:user")
-            n = np if r.random() < 0.97 else r.randint(0, np + 1)
+            name, np, va = self.pick(self.funcs); self.f("call:user")
+            q = r.random()
+            if q < 0.55:
+                n = np
+            elif q < 0.85 or not va:
+                n = r.randint(0, np) if q < 0.97 else np + 1      # fewer actual arguments are legal (missing ones are nil); one too many is a parse error
+                if n < np:
+                    self.f("call:fewer-args")
+            else:
+                n = np + r.randint(1, 4); self.f("call:variadic-extra")
             return "%s(%s)" % (name, ", ".join(self.expr(d - 1) if r.random() < 0.85 else self.pick(MAPS + ARRS) for _ in range(n)))
         if k < 0.96:
             return self.getline()
@@ -350,12 +361,16 @@ class Gen:
             name = self.pick(["f", "g", "h", "main"]) if k == 0 else "f%d" % k
             if name in [x[0] for x in self.funcs]:
                 continue
-            np = r.randint(0, 3)
+            np = self.pick([0, 1, 2, 3, 3, 5, 8])
             params = ["p%d" % q for q in range(np)]
             if r.random() < 0.15 and np:
                 params[0] = "&" + params[0]; self.f("fn:byref-param")
+            va = r.random() < 0.2
+            if va:
+                params.append("..."); self.f("fn:variadic")
             self.in_func = name
-            self.funcs.append((name, np))       # visible to its own body: recursion
+            self.in_variadic = va
+            self.funcs.append((name, np, va))       # visible to its own body: recursion
             self.f("st:function")
             saved = list(SCALARS)
             body = []
@@ -365,10 +380,13 @@ class Gen:
             body.append(guard)
             for _ in range(r.randint(1, 4)):
                 body.append(self.stmt(2))
+            if va and r.random() < 0.5:
+                body.append("for (l1 in @argv) { %s }" % self.stmt(1))
             if r.random() < 0.7:
                 body.append("return %s;" % self.expr(2))
             parts.append("function %s(%s) { %s }" % (name, ", ".join(params), " ".join(body)))
             self.in_func = None
+            self.in_variadic = False
         nrules = r.randint(1, 4)
         for _ in range(nrules):
             k = r.random()
@@ -394,9 +412,154 @@ class Gen:
 
 
 # ---- targeted templates: sites named in the property anchors, with edge operands --------------------------------
+WB_TARGETS = ["NF", "NR", "FNR", "FS", "RS", "OFS", "ORS", "OFMT", "CONVFMT", "SUBSEP", "IGNORECASE", "RSTART", "RLENGTH", "NUMSTRDETECT",
+              "STRIPRECSPC", "STRIPSTRSPC", "FILENAME", "$0", "$1", "$NF", "$(-1)", "$(NF+2)", "$(4611686018427387904)", "$100000", "m[1]", "m", "r[0]",
+              "r[-1]", "r[4611686018427387904]", "a", "m[1][2]", "ARGV", "ARGC", "ENVIRON", "wf"]
+WB_REJECT = ['"-1"', '"-5"', '"\\0"', '"x\\0y"', '"(a"', '"a{2,"', '"["', '"9223372036854775807"', '"99999999999"', '"1e999"', '"&&&&&&&&"', '""', "@nil",
+             '"%"', '"%s%s%s"', '"%.99999f"', "m", "-1", "1e300", '"\\\\"', '@b"\\xff"', '"-0"', '" -3 "', '"a b"', "(-9223372036854775807-1)"]
+WB_PATS = ['"."', '".*"', '"[a-z0-9%.]"', '""', '"^"', '"$"', '"0"', '"1"', '"3"', '"g"', '"%"', '"."', '" "', '"\\n"', '"6"', '"^"', '"$"', '""', '"a"', '"[a-z0-9]"', '".*"', "'g'", "'0'", '@b"g"', '@b"0"', "wp", "wp",
+           "/./", "/0/"]
+WB_SUBJ = ['"a b c"', '"a:b:c"', '"-1 -2"', '"0"', "$0", '@b"x y"', '"foo bar"', "m", "12345", '""']
+
+
+def stack_pressure(g):
+    """deep recursion against a small run-time stack: frame sizes and the fill level at the moment of each call are swept by the
+    number of globals, named parameters, actual arguments (fewer / equal / more for variadic functions), locals of nested blocks"""
+    r = g.r
+    g.f("t:stack-pressure")
+    parts = []
+    if r.random() < 0.85:
+        parts.append("@pragma stack_limit %d;" % g.pick([1, 512, 513, 517, 520, 600, 777, 1024]))
+    k = r.randrange(0, 16)
+    if k:
+        parts.append("@global %s;" % ", ".join("sg%d" % i for i in range(k)))
+    funs = []
+    for i in range(g.pick([1, 1, 1, 2, 3])):
+        funs.append(("sf%d" % i, g.pick([0, 1, 2, 3, 5, 7, 8, 10, 13]), r.random() < 0.6, g.pick([0, 0, 1, 3, 6])))
+
+    def call(to):
+        name, np, va, nl = to
+        q = r.random()
+        if q < 0.55 and np:
+            na = r.randrange(0, np); g.f("sp:fewer-args")
+        elif q < 0.8 or not va:
+            na = np
+        else:
+            na = np + r.randint(1, 9); g.f("sp:variadic-extra")
+        args = ", ".join(g.pick(["sd", "1", '"x"', "@nil", "sm", "sd + 1", "@b\"y\""]) for _ in range(na))
+        form = g.pick(["%s(%s)", "%s(%s)", "%s(%s)", 'hawk::call("%s"%s%s)'])
+        if form.startswith("hawk::call"):
+            return form % (name, ", " if args else "", args)
+        return form % (name, args)
+    for name, np, va, nl in funs:
+        if va:
+            g.f("sp:variadic")
+        params = ["q%d" % i for i in range(np)] + (["..."] if va else [])
+        body = []
+        if nl:
+            body.append("@local %s;" % ", ".join("v%d" % i for i in range(nl)))
+        if r.random() < 0.45:
+            body.append("if (sd++ > %d) return sd;" % g.pick([5, 20, 30, 40, 45, 50, 60, 80, 100, 200, 400]))
+            g.f("sp:bounded")
+        else:
+            body.append("sd++;")
+        c = call(g.pick(funs))
+        if r.random() < 0.4:
+            body.append("{ @local b1, b2; b1 = sd; { @local c1; c1 = %s; sm[sd] = c1; } }" % c); g.f("sp:block-locals")
+        tail = g.pick(["return @C@;", "sx = @C@; return sx;", "@C@; return 1;", 'return sprintf("%s%s", @C@, 1);', "return (@C@) + 1;",
+                       "if (@C@) return 1; return 0;", "for (sk in sm) { return @C@; } return @C@;"])
+        body.append(tail.replace("@C@", c))
+        if va and r.random() < 0.5:
+            body.insert(1, "sx = @argc; sy = @argv[0];")
+        parts.append("function %s(%s) { %s }" % (name, ", ".join(params), " ".join(body)))
+    ctx = g.pick(["BEGIN", "BEGIN", "", "END"])
+    parts.append("%s { sm[0] = 1; print %s; print sd; }" % (ctx, call(funs[0])))
+    return "\n".join(parts) + "\n"
+
+
+def failing_writeback(g):
+    """builtins (and getline, assignments) that store through a reference into a target whose setter can reject the value:
+    special variables, positional fields, containers — with string (per-call compiled) patterns, after an operation that succeeded"""
+    r = g.r
+    g.f("t:failing-writeback")
+    refb = [b for b in BUILTINS if b[3]]
+    st = []
+    st.append('wp = %s; wf = "%%.6g"; m[1] = "a0g"; a = "a0g %%";' % g.pick(['"0"', '"g"', '"."', '"%"', '"[0-9]"']))
+    if r.random() < 0.5:
+        st.append(g.pick(['NF = 3;', '$0 = "x0 g1 %";', 'OFMT = "%.6g";', 'r = hawk::array(1, 2);', 'FS = ":";', 'sub("0", "1", a);', 'gsub(wp, "&", a);', 'split("a b", m);']))
+    for _ in range(g.pick([1, 1, 2, 3])):
+        tgt = g.pick(WB_TARGETS + ["NF", "NF", "OFMT", "CONVFMT", "NR", "FS", "RS", "$0", "$(-1)"])
+        g.f("wb:" + re.sub(r"[^A-Za-z$]", "", tgt)[:8])
+        q = r.random()
+        if q < 0.62 and refb:
+            subl = [b for b in refb if b[0].endswith("sub")]
+            name, lo, hi, refs = g.pick(subl) if (subl and r.random() < 0.45) else g.pick(refb)
+            g.f("fn:" + name)
+            n = max(lo, min(hi, max(refs) + 1 + (r.random() < 0.3)))
+            args = []
+            sublike = name.endswith("sub")
+            for i in range(n):
+                if i in refs:
+                    args.append(tgt if (r.random() < 0.85 or i == max(refs)) else g.pick(["m", "a", "m[2]"]))
+                elif sublike and i == 0:
+                    args.append(g.pick(WB_PATS))
+                elif sublike and i == 1:
+                    args.append(g.pick(WB_REJECT))
+                else:
+                    args.append(g.pick(WB_SUBJ + WB_PATS + WB_REJECT))
+            st.append("wn = %s(%s);" % (name, ", ".join(args)))
+        elif q < 0.74:
+            g.f("wb:getline")
+            st.append(g.pick(["(getline %s);", '(getline %s < "in");', '("echo -1" | getline %s);', '("echo a b c" | getline %s);', '("echo -1" || getline %s);']) % tgt)
+        elif q < 0.86:
+            g.f("wb:assign")
+            st.append("%s %s %s;" % (tgt, g.pick(["=", "=", "-=", "%%=", "*=", "**=", "<<="]), g.pick(WB_REJECT)))
+        elif q < 0.93:
+            g.f("wb:incdec")
+            st.append(g.pick(["%s--;", "--%s;", "%s++;", "%s -= 10;"]) % tgt)
+        else:
+            g.f("wb:byref")
+            st.append("wbset(%s, %s);" % (tgt, g.pick(WB_REJECT)))
+    st.append("print wn, NF, OFMT, length(m);")
+    ctx = g.pick(["BEGIN", "BEGIN", "", "END", "NR == 1"])
+    return "function wbset(&x, v) { x = v; return 1; }\n%s { %s }\n" % (ctx, " ".join(st))
+
+
+def console_args(g):
+    """the console-input walk over ARGV[1..ARGC-1]: elements rewritten by the script (empty, assignment-shaped, missing files, "-",
+    non-strings, deleted), ARGC moved, then the console is read by the main rules, getline, nextfile"""
+    r = g.r
+    g.f("t:console-args")
+    st = []
+    for _ in range(g.pick([1, 1, 2, 3, 4])):
+        q = r.random()
+        idx = g.pick(["0", "1", "1", "2", "2", "3", "5", "-1", '"x"'])
+        if q < 0.7:
+            st.append("ARGV[%s] = %s;" % (idx, g.pick(['""', '""', '"in"', '"nofile"', '"-"', '"x=1"', '"="', '"a=b=c"', '"FS=:"', '"NF=-1"', '"/dev/null"', "@nil", "5",
+                                                       '"in"', "m", '@b"in"', "' '", '" "', '"\\0"', '"f1"'])))
+        elif q < 0.85:
+            st.append("delete ARGV[%s];" % idx)
+        else:
+            st.append(g.pick(["delete ARGV;", "ARGV = 1;", '@reset ARGV;', "m[1] = 1; ARGV[1] = m[1];"]))
+    if r.random() < 0.8:
+        st.append("ARGC = %s;" % g.pick(["1", "2", "2", "3", "3", "4", "6", "0", "-1", '"x"', "100"]))
+    rules = ["BEGIN { %s }" % " ".join(st)]
+    for _ in range(g.pick([1, 1, 2])):
+        rules.append(g.pick(["{ print FILENAME, FNR, $0; }", "{ n++; if (n > 40) exit; print; }", "{ nextfile; }", "{ while ((getline l) > 0) n++; print n; }",
+                             "END { print NR, (getline x), x; }", "BEGIN { while ((getline l) > 0) print l; print (getline); }", "1", "{ ARGV[2] = \"\"; ARGC = 3; print; }",
+                             "NR == 1 { ARGV[ARGC++] = \"\"; ARGV[ARGC++] = \"in\"; }"]))
+    return "\n".join(rules) + "\n"
+
+
 def targeted(rng):
     g = Gen(rng)
-    k = rng.randrange(14)
+    k = rng.randrange(24)
+    if k >= 22:
+        return g, console_args(g)
+    if k >= 18:
+        return g, stack_pressure(g)
+    if k >= 14:
+        return g, failing_writeback(g)
     i1, i2 = g.pick(INT_EDGE), g.pick(INT_EDGE + ["0", "-1"])
     if k >= 12:
         # positions around the end of a subject of known length, for every position-taking builtin and subject type
